@@ -27,6 +27,15 @@ func VerifDir() string {
 	return "/verif"
 }
 
+// OutDir is where evidence and replay files go (VERIF_OUT overrides it for mutation runs,
+// so that runs against scratch copies never touch the committed evidence).
+func OutDir() string {
+	if d := os.Getenv("VERIF_OUT"); d != "" {
+		return d
+	}
+	return VerifDir()
+}
+
 // Parent is the merged state available to Monitor.Post.
 type Parent struct {
 	M        *Monitor
@@ -373,7 +382,7 @@ func parentMain(m *Monitor, tier string, seed int64) int {
 	sort.Strings(order)
 	newViol := 0
 	knownSeen := map[string]int{}
-	os.MkdirAll(filepath.Join(VerifDir(), "replays"), 0o755)
+	os.MkdirAll(filepath.Join(OutDir(), "replays"), 0o755)
 	for _, k := range order {
 		g := groups[k]
 		if g.kf != nil {
@@ -386,7 +395,7 @@ func parentMain(m *Monitor, tier string, seed int64) int {
 		}
 		b, _ := stdjson.MarshalIndent(g.v, "", " ")
 		sum := sha256.Sum256(b)
-		path := filepath.Join(VerifDir(), "replays", fmt.Sprintf("%s-%x.json", m.ID, sum[:6]))
+		path := filepath.Join(OutDir(), "replays", fmt.Sprintf("%s-%x.json", m.ID, sum[:6]))
 		os.WriteFile(path, b, 0o644)
 		fmt.Printf("VIOLATION property=%s replay=%s\n", m.ID, path)
 		fmt.Printf("  sub=%s sig=%v\n  %s\n", g.v.Sub, g.v.Sig, indent(trunc(g.v.Detail, 1500)))
@@ -432,9 +441,9 @@ func parentMain(m *Monitor, tier string, seed int64) int {
 		"wall_s":      time.Since(start).Seconds(),
 		"violations":  newViol,
 	}
-	os.MkdirAll(filepath.Join(VerifDir(), "evidence"), 0o755)
+	os.MkdirAll(filepath.Join(OutDir(), "evidence"), 0o755)
 	evb, _ := stdjson.MarshalIndent(ev, "", " ")
-	os.WriteFile(filepath.Join(VerifDir(), "evidence", m.ID+".json"), append(evb, '\n'), 0o644)
+	os.WriteFile(filepath.Join(OutDir(), "evidence", m.ID+".json"), append(evb, '\n'), 0o644)
 
 	fmt.Printf("%s %s seed=%d: evaluations=%d distinct_nontrivial=%d new_violations=%d known=%d wall=%.1fs\n",
 		m.ID, tier, seed, evals, len(shapes), newViol, len(knownSeen), time.Since(start).Seconds())
